@@ -61,6 +61,8 @@ def run(ctx, replay):
 
     lit_only = None
     comps = []
+    hists = []
+    auths = []
     if replay:
         obj = json.load(open(replay))
         cases = []
@@ -71,6 +73,10 @@ def run(ctx, replay):
         lit_only = obj.get("lit")
         if obj.get("comp"):
             comps = [dict(obj["comp"], id=200000)]
+        if obj.get("hist"):
+            hists = [{"id": 3000000, "in": obj["hist"]}]
+        if obj.get("auth"):
+            auths = [{"id": 4000000, "in": obj["auth"]}]
     else:
         # ---- (T) the design satisfies the property on every term ------------
         r = ctx.tlc_expect_ok("Errors", None, name="mc", workers=16, timeout=900,
@@ -83,8 +89,12 @@ def run(ctx, replay):
         for tag, val in r["printed"]:
             if tag == "COMP":
                 comps = [{"id": 200000 + i, "site": c["site"], "in": c["in"]} for i, c in enumerate(val)]
-        if not comps:
-            raise vlib.Infra("TLC printed no COMP line (computed replies)")
+            if tag == "HIST":
+                hists = [{"id": 3000000 + i, "in": h} for i, h in enumerate(val)]
+            if tag == "AUTH":
+                auths = [{"id": 4000000 + i, "in": a} for i, a in enumerate(val)]
+        if not comps or not hists or not auths:
+            raise vlib.Infra("TLC printed no COMP/HIST/AUTH line")
         if len(terms) != r["distinct"]:
             raise vlib.Infra("TLC printed %d rows for %d states" % (len(terms), r["distinct"]))
         ctx.log("TLC exhaustive: %d terms (states), depth %d, %.1fs" % (r["distinct"], r["depth"], r["wall"]))
@@ -130,6 +140,10 @@ def run(ctx, replay):
         events += lits
     if comps:
         events += ctx.run_shards(binary, comps, test="TestComp", name="comp", shards=1)
+    if hists:
+        events += ctx.run_shards(binary, hists, test="TestHist", name="hist", shards=1)
+    if auths:
+        events += ctx.run_shards(binary, auths, test="TestAuth", name="auth", shards=1)
     by_case = {c["id"]: c for c in cases}
     comp_by_id = {c["id"]: c for c in comps}
 
@@ -155,6 +169,8 @@ def run(ctx, replay):
     preds = {}
     lit_rows = lit_viol = 0
     comp_rows = comp_viol = 0
+    fam_rows = {"Hist": 0, "Auth": 0}
+    fam_viol = {"Hist": 0, "Auth": 0}
     # literal rows first: the driver keeps artefacts for the first few violations only
     for t, recs in sorted(verdicts.items(), key=lambda kv: (kv[0] < 1000000, kv[0])):
         rec = recs[0]
@@ -172,6 +188,8 @@ def run(ctx, replay):
             lit_rows += 1
         if ev["e"] == "Comp":
             comp_rows += 1
+        if ev["e"] in fam_rows:
+            fam_rows[ev["e"]] += 1
         if not viol:
             if rec["drift"]:
                 drift += 1
@@ -202,6 +220,22 @@ def run(ctx, replay):
             for d in devs:
                 ctx.known(open_devs[d]["id"], open_devs[d]["what"])
             continue
+        if ev["e"] == "Hist":
+            fam_viol["Hist"] += 1
+            o = ev["out"]
+            ctx.violation("queue history max_tries=%d %s: %d attempt(s), report %s %s (Status %s) violates %s" % (
+                ev["in"]["mt"], json.dumps(ev["in"]["seq"]), o["attempts"], o["dcode"], o["denh"], o["status"],
+                ",".join(viol)),
+                {"property": "C16", "hist": ev["in"], "row": ev, "violated": viol,
+                 "how": "bin/check C16 --replay <this file>"})
+            continue
+        if ev["e"] == "Auth":
+            fam_viol["Auth"] += 1
+            ctx.violation("AUTH %s with a provider failing with %s answered %d %s violates %s" % (
+                ev["in"]["mech"], json.dumps(ev["in"]["term"]), ev["out"]["code"], ev["out"]["text"], ",".join(viol)),
+                {"property": "C16", "auth": ev["in"], "row": ev, "violated": viol,
+                 "how": "bin/check C16 --replay <this file>"})
+            continue
         if ev["e"] == "Comp":
             comp_viol += 1
             c = comp_by_id[ev["case"]]
@@ -220,7 +254,11 @@ def run(ctx, replay):
     n_terms = len(cases)
     ctx.cov["traces_validated_against_impl"] = ok
     ctx.cov["drift_traces"] = drift
-    ctx.cov["evaluations"] = n_terms + lit_rows + comp_rows
+    ctx.cov["evaluations"] = n_terms + lit_rows + comp_rows + fam_rows["Hist"] + fam_rows["Auth"]
+    ctx.cov["history_rows"] = fam_rows["Hist"]
+    ctx.cov["history_rows_violating"] = fam_viol["Hist"]
+    ctx.cov["auth_reply_rows"] = fam_rows["Auth"]
+    ctx.cov["auth_reply_rows_violating"] = fam_viol["Auth"]
     ctx.cov["computed_reply_rows"] = comp_rows
     ctx.cov["computed_reply_rows_violating"] = comp_viol
     ctx.cov["computed_reply_sites"] = sorted(set(c["site"] for c in comps))
@@ -243,6 +281,9 @@ def run(ctx, replay):
         ctx.cov["samples"].append({"term": e["in"]["t"], "recorded": e["out"], "verdict": verdicts[e["t"]][0]})
     for e in [e for e in events if e["e"] == "Lit" and e["kind"] == "helper"][:1]:
         ctx.cov["samples"].append({"literal": e, "verdict": verdicts[e["t"]][0]})
+    for fam in ("Hist", "Auth"):
+        for e in [e for e in events if e["e"] == fam][1:2]:
+            ctx.cov["samples"].append({fam.lower(): e, "verdict": verdicts[e["t"]][0]})
     for e in [e for e in events if e["e"] == "Comp" and e["site"] == "dmarc-reject"][-1:]:
         ctx.cov["samples"].append({"computed": e, "verdict": verdicts[e["t"]][0]})
     ctx.assumptions += [
@@ -255,6 +296,12 @@ def run(ctx, replay):
         "(rows Comp: DMARC reject in the real pipeline, both reject directive parsers, fail_action override, milter "
         "reply code, smtpconn's conversion of a peer's reply incl. the 552->452 rewrite); the LMTP per-recipient "
         "status of target/smtp only copies the peer's reply and is not driven",
+        "histories: one recipient failing over max_tries 2 and 3 attempts of the real queue with every sequence of "
+        "{451 4.3.0, 550 5.1.1, unclassified, WithTemporary(true) around 550}; a report of class 4 is accepted only "
+        "when the tries were exhausted on a failure that was still temporary",
+        "AUTH replies: real submission endpoint over an in-memory connection, PLAIN and LOGIN, the provider fails "
+        "with 11 error terms; demanded: class coherence, no internal text (incl. the words 'auth. provider'), ASCII; "
+        "that HEAD answers every failed exchange, permanent ones included, 454 4.7.0 is not judged",
         "a reject directive whose operator-given basic and enhanced code disagree is the operator's choice and not "
         "in the input space; peers' replies fed to smtpconn are coherent or lack an enhanced code",
         "TLC 1.8.0, CommunityModules Json",
